@@ -832,10 +832,13 @@ impl EncodingVersion for EncodingVersion1 {
         let pid = member_id as u16 + (m_flag << 14);
         serializer.serialize_primitive_type(&pid);
         let ssize = Ssize::new(serializer);
+        let outer_position = ssize.serializer.writer.position;
         ssize.serializer.push_origin_0();
         if v.get_value(member_id).is_ok() {
             ssize.serializer.serialize_value(v, member_id).unwrap();
         }
+        // POP( ORIGIN ): positions after the member are relative to the enclosing origin again
+        ssize.serializer.writer.position += outer_position;
         ssize.write_ssize();
         Ok(())
     }
